@@ -154,6 +154,7 @@ func TestC01(t *testing.T) {
 		}
 	}
 	rapid.Check(t, func(rt *rapid.T) {
+		noiseCall(rt) // one case in three is preceded by an unrelated, mostly failing call (see noise_test.go)
 		var in c01Input
 		mode := rapid.IntRange(0, 9).Draw(rt, "mode")
 		switch {
